@@ -118,10 +118,7 @@ Definition parse_vtt_pct (value : text) : option Z :=
   let r2 := match r1 with 46 :: r => r | _ => r1 end in
   let d2 := take_while is_digit r2 in
   let r3 := drop_while is_digit r2 in
-  match r3 with
-  | [37] => Some (round_he (dec_value (d1 ++ d2)) (10 ^ Z.of_nat (length d2)))
-  | _ => None
-  end.
+  if text_eqb r3 [37] then Some (round_he (dec_value (d1 ++ d2)) (10 ^ Z.of_nat (length d2))) else None.
 
 (* _VTT_INT_RE: optional minus and 1 to 20 digits; then int() *)
 Definition parse_vtt_int (value : text) : option Z :=
@@ -173,111 +170,122 @@ Definition setting (key : text) (l : list text) : option text := settings_get ke
 
 Definition nth_text (n : nat) (l : list text) : text := nth n l [].
 
-(* the geometry; `rows`/`cols` are _DEFAULT_ROWS/_DEFAULT_COLS *)
-Definition compute_region (cue_settings : list text) : region :=
-  let rows := qz default_rows in let cols := qz default_cols in
-  let writing_mode := LRTB in
-  let text_align := TACenter in
-  let display_align := DAAfter in
-  let extent_height := (100 - 200 / rows)%Q in
-  let extent_width := (100 - 200 / cols)%Q in
-  let origin_x := (100 / cols)%Q in
-  let origin_y := (100 / rows)%Q in
-  (* writing direction *)
-  let writing_mode :=
-    match setting s_vertical cue_settings with
-    | Some v => if text_eqb v s_lr then TBLR else if text_eqb v s_rl then TBRL else writing_mode
-    | None => writing_mode
-    end in
-  (* size *)
-  let '(extent_height, extent_width) :=
-    match setting s_size cue_settings with
-    | Some v =>
-      match parse_vtt_pct v with
-      | Some pct => if negb (horizontal writing_mode) then (qz pct, extent_width) else (extent_height, qz pct)
-      | None => (extent_height, extent_width)
-      end
-    | None => (extent_height, extent_width)
-    end in
-  (* text align *)
-  let text_align :=
-    match setting s_align cue_settings with
-    | Some v =>
-      if text_eqb v s_left then (if wmode_eqb writing_mode RLTB then TAEnd else TAStart)
-      else if text_eqb v s_right then (if wmode_eqb writing_mode RLTB then TAStart else TAEnd)
-      else if text_eqb v s_start then TAStart
-      else if text_eqb v s_center then TACenter
-      else if text_eqb v s_end then TAEnd
-      else text_align
-    | None => text_align
-    end in
-  (* line *)
-  let '(extent_height, extent_width, origin_x, origin_y, display_align) :=
-    match setting s_line cue_settings with
-    | Some v =>
-      let value := split_on 44 v in
-      let line_align := if (1 <? length value)%nat then nth_text 1 value else s_start in
-      let line_offset : option Q :=
-        match parse_vtt_pct (nth_text 0 value) with
-        | Some p => Some (qz p)
-        | None =>
-          match parse_vtt_int (nth_text 0 value) with
-          | Some line_num =>
-            if horizontal writing_mode
-            then Some (if 0 <? line_num then (100 * qz line_num / rows)%Q else (100 - 100 * qz line_num / rows)%Q)
-            else Some (if 0 <? line_num then (100 * qz line_num / cols)%Q else (100 - 100 * qz line_num / cols)%Q)
-          | None => None
-          end
-        end in
-      match line_offset with
-      | Some lo =>
-        if text_eqb line_align s_center then
-          if horizontal writing_mode then
-            let eh := (Qmin lo (100 - lo) * 2)%Q in
-            (eh, extent_width, origin_x, (lo - eh / 2)%Q, DACenter)
-          else
-            let ew := (Qmin lo (100 - lo) * 2)%Q in
-            (extent_height, ew, (lo - extent_height / 2)%Q, origin_y, DACenter)    (* sic: extent_height *)
-        else if text_eqb line_align s_start then
-          if horizontal writing_mode then ((100 - lo)%Q, extent_width, origin_x, lo, DABefore)
-          else (extent_height, (100 - lo)%Q, lo, origin_y, DABefore)
-        else if text_eqb line_align s_end then
-          if horizontal writing_mode then (lo, extent_width, origin_x, 0%Q, DAAfter)
-          else (extent_height, lo, 0%Q, origin_y, DAAfter)
-        else (extent_height, extent_width, origin_x, origin_y, display_align)
-      | None => (extent_height, extent_width, origin_x, origin_y, display_align)
-      end
-    | None => (extent_height, extent_width, origin_x, origin_y, display_align)
-    end in
-  (* position *)
-  let '(origin_x, origin_y) :=
-    match setting s_position cue_settings with
-    | Some v =>
-      let value := split_on 44 v in
-      let v1 := nth_text 1 value in
-      let line_align :=
-        if (1 <? length value)%nat && (text_eqb v1 s_center || text_eqb v1 s_line_left || text_eqb v1 s_line_right)
-        then v1
-        else match text_align with
-             | TAStart => if wmode_eqb writing_mode RLTB then s_line_right else s_line_left
-             | TAEnd => if wmode_eqb writing_mode RLTB then s_line_left else s_line_right
-             | TACenter => s_center
-             end in
-      match parse_vtt_pct (nth_text 0 value) with
-      | Some p =>
-        let position := qz p in
-        if text_eqb line_align s_center then
-          if horizontal writing_mode then ((position - extent_width / 2)%Q, origin_y)
-          else (origin_x, (position - extent_height / 2)%Q)
-        else if text_eqb line_align s_line_left then
-          if horizontal writing_mode then (position, origin_y) else (origin_x, position)
-        else (* line-right: the only remaining value *)
-          if horizontal writing_mode then ((position - extent_width)%Q, origin_y)
-          else (origin_x, (position - extent_height)%Q)
-      | None => (origin_x, origin_y)
-      end
+(* the geometry, one definition per block of the Python function; `rows`/`cols` are _DEFAULT_ROWS/_DEFAULT_COLS *)
+Definition rows_q : Q := qz default_rows.
+Definition cols_q : Q := qz default_cols.
+Definition default_eh : Q := (100 - 200 / rows_q)%Q.
+Definition default_ew : Q := (100 - 200 / cols_q)%Q.
+Definition default_ox : Q := (100 / cols_q)%Q.
+Definition default_oy : Q := (100 / rows_q)%Q.
+
+(* writing direction *)
+Definition stage_vertical (cue_settings : list text) : wmode :=
+  match setting s_vertical cue_settings with
+  | Some v => if text_eqb v s_lr then TBLR else if text_eqb v s_rl then TBRL else LRTB
+  | None => LRTB
+  end.
+(* size: (extent_height, extent_width) *)
+Definition stage_size (cue_settings : list text) (writing_mode : wmode) : Q * Q :=
+  match setting s_size cue_settings with
+  | Some v =>
+    match parse_vtt_pct v with
+    | Some pct => if negb (horizontal writing_mode) then (qz pct, default_ew) else (default_eh, qz pct)
+    | None => (default_eh, default_ew)
+    end
+  | None => (default_eh, default_ew)
+  end.
+(* text align *)
+Definition stage_align (cue_settings : list text) (writing_mode : wmode) : talign :=
+  match setting s_align cue_settings with
+  | Some v =>
+    if text_eqb v s_left then (if wmode_eqb writing_mode RLTB then TAEnd else TAStart)
+    else if text_eqb v s_right then (if wmode_eqb writing_mode RLTB then TAStart else TAEnd)
+    else if text_eqb v s_start then TAStart
+    else if text_eqb v s_center then TACenter
+    else if text_eqb v s_end then TAEnd
+    else TACenter
+  | None => TACenter
+  end.
+(* line: percentage, else line number *)
+Definition line_offset_of (writing_mode : wmode) (v0 : text) : option Q :=
+  match parse_vtt_pct v0 with
+  | Some p => Some (qz p)
+  | None =>
+    match parse_vtt_int v0 with
+    | Some line_num =>
+      if horizontal writing_mode
+      then Some (if 0 <? line_num then (100 * qz line_num / rows_q)%Q else (100 - 100 * qz line_num / rows_q)%Q)
+      else Some (if 0 <? line_num then (100 * qz line_num / cols_q)%Q else (100 - 100 * qz line_num / cols_q)%Q)
+    | None => None
+    end
+  end.
+(* (extent_height, extent_width, origin_x, origin_y, display_align) *)
+Definition stage_line (cue_settings : list text) (writing_mode : wmode) (extent_height extent_width : Q)
+  : Q * Q * Q * Q * dalign :=
+  let unchanged := (extent_height, extent_width, default_ox, default_oy, DAAfter) in
+  match setting s_line cue_settings with
+  | Some v =>
+    let value := split_on 44 v in
+    let line_align := if (1 <? length value)%nat then nth_text 1 value else s_start in
+    match line_offset_of writing_mode (nth_text 0 value) with
+    | Some lo =>
+      if text_eqb line_align s_center then
+        if horizontal writing_mode then
+          let eh := (Qmin lo (100 - lo) * 2)%Q in
+          (eh, extent_width, default_ox, (lo - eh / 2)%Q, DACenter)
+        else
+          let ew := (Qmin lo (100 - lo) * 2)%Q in
+          (extent_height, ew, (lo - extent_height / 2)%Q, default_oy, DACenter)    (* sic: extent_height *)
+      else if text_eqb line_align s_start then
+        if horizontal writing_mode then ((100 - lo)%Q, extent_width, default_ox, lo, DABefore)
+        else (extent_height, (100 - lo)%Q, lo, default_oy, DABefore)
+      else if text_eqb line_align s_end then
+        if horizontal writing_mode then (lo, extent_width, default_ox, 0%Q, DAAfter)
+        else (extent_height, lo, 0%Q, default_oy, DAAfter)
+      else unchanged
+    | None => unchanged
+    end
+  | None => unchanged
+  end.
+(* position: (origin_x, origin_y) *)
+Definition stage_position (cue_settings : list text) (writing_mode : wmode) (text_align : talign)
+           (extent_height extent_width origin_x origin_y : Q) : Q * Q :=
+  match setting s_position cue_settings with
+  | Some v =>
+    let value := split_on 44 v in
+    let v1 := nth_text 1 value in
+    let line_align :=
+      if (1 <? length value)%nat && (text_eqb v1 s_center || text_eqb v1 s_line_left || text_eqb v1 s_line_right)
+      then v1
+      else match text_align with
+           | TAStart => if wmode_eqb writing_mode RLTB then s_line_right else s_line_left
+           | TAEnd => if wmode_eqb writing_mode RLTB then s_line_left else s_line_right
+           | TACenter => s_center
+           end in
+    match parse_vtt_pct (nth_text 0 value) with
+    | Some p =>
+      let position := qz p in
+      if text_eqb line_align s_center then
+        if horizontal writing_mode then ((position - extent_width / 2)%Q, origin_y)
+        else (origin_x, (position - extent_height / 2)%Q)
+      else if text_eqb line_align s_line_left then
+        if horizontal writing_mode then (position, origin_y) else (origin_x, position)
+      else (* line-right: the only remaining value *)
+        if horizontal writing_mode then ((position - extent_width)%Q, origin_y)
+        else (origin_x, (position - extent_height)%Q)
     | None => (origin_x, origin_y)
-    end in
+    end
+  | None => (origin_x, origin_y)
+  end.
+
+Definition compute_region (cue_settings : list text) : region :=
+  let writing_mode := stage_vertical cue_settings in
+  let '(extent_height, extent_width) := stage_size cue_settings writing_mode in
+  let text_align := stage_align cue_settings writing_mode in
+  let '(extent_height, extent_width, origin_x, origin_y, display_align) :=
+    stage_line cue_settings writing_mode extent_height extent_width in
+  let '(origin_x, origin_y) :=
+    stage_position cue_settings writing_mode text_align extent_height extent_width origin_x origin_y in
   mkRegion writing_mode origin_x origin_y extent_width extent_height display_align text_align.
 
 Definition region_eqb (a b : region) : bool :=
